@@ -26,7 +26,7 @@ RULE = (
     "final result equals the plain synchronous result; 3 runs under the threaded scheduler (8 workers) agree. "
     "Non-trivial = graph with >=2 tasks sharing an input (a key with >=2 dependents) and >=2 blocks."
 )
-BUDGET = {"quick": 60, "thorough": 900}
+BUDGET = {"quick": 120, "thorough": 1500}
 ASSUMPTIONS = [
     "purity is judged by content digests, not by handing out read-only buffers (numba/numbagg kernels may refuse those)",
     "data races are excluded by the absence of writes to shared inputs, not by observing instruction-level interleavings",
@@ -39,7 +39,10 @@ def cases(draw, tier="quick"):
         inner = draw(c10.cases(tier))
         kind = "scan"
     else:
-        inner = draw(c02.reduce_cases(tier, nplans=1, max_n=16))
+        inner = draw(c02.reduce_cases(
+            tier, nplans=1, max_n=16, engines=["numpy", "flox", "flox", "numbagg", None, None],
+            label_styles=["random", "sorted", "sorted", "runs", "periodic", "blocks", "constant"],
+        ))
         kind = "reduce"
     return {
         "kind": kind, "inner": inner, "order": draw(st.sampled_from(ORDERS)), "seed": draw(st.integers(0, 2**16)),
